@@ -47,10 +47,10 @@ Print Assumptions C07_legacy_style_attrs_ok.
 
 (* a style= reference is only written for a style that exists in the head (this restates the guard of
    recreate_style; its content is the use made of it in C07_doc_consistent_partial) *)
-Theorem C07_style_refs_resolve : forall content ids v,
+Theorem C07_style_refs_resolve_unfold : forall content ids v,
   In (lit "style", v) (recreate_style content ids) -> existsb (str_eqb v) ids = true.
 Proof. exact style_refs_resolve. Qed.
-Print Assumptions C07_style_refs_resolve.
+Print Assumptions C07_style_refs_resolve_unfold.
 
 (* ---- regions (model of RegionCreator): ids unique, every reference resolves, no unreferenced region ------------- *)
 Theorem C07_region_ids_unique : forall cs, NoDup (defined cs).
@@ -61,9 +61,9 @@ Proof. exact regions_resolve. Qed.
 Print Assumptions C07_regions_resolve.
 (* `defined` is the filter "created and referenced" (cleanup_regions), so this one is definitional: that the real
    cleanup equals that filter is correspondence (stream R) *)
-Theorem C07_no_unreferenced_region : forall cs r, In r (defined cs) -> In r (all_refs cs).
+Theorem C07_no_unreferenced_region_unfold : forall cs r, In r (defined cs) -> In r (all_refs cs).
 Proof. exact no_unreferenced_region. Qed.
-Print Assumptions C07_no_unreferenced_region.
+Print Assumptions C07_no_unreferenced_region_unfold.
 
 (* ---- wave 2: the WHOLE writer traversal (styling section, regions, languages x captions x nodes; model/DfxpDoc.v).
         For every caption set whose style ids are distinct and differ from the region ids, the ids and references of
@@ -127,13 +127,13 @@ Print Assumptions C07_document_wellformed.
 (* composed with C07_caption_payload_wellformed: from caption nodes (texts, style dictionaries, region ids, inline
    attributes - balanced style nodes) and any language code made of XML characters to a well-formed document, main
    and legacy writer *)
-Theorem C07_document_of_captions_wellformed : forall legacy ids lang styles regions divs,
+Theorem C07_document_of_captions_wellformed_partial : forall legacy ids lang styles regions divs,
   forallb is_xml_char lang = true ->
   Forall (fun a => attrs_ok a []) styles -> Forall (fun a => attrs_ok a []) regions ->
   Forall (fun dv => attrs_ok (fst dv) [] /\ Forall (caption_ok ids) (snd dv)) divs ->
   exists evs, doc_parse (dfxp_document (doc_of_captions legacy ids lang styles regions divs)) = Some evs.
 Proof. exact document_of_captions_wellformed. Qed.
-Print Assumptions C07_document_of_captions_wellformed.
+Print Assumptions C07_document_of_captions_wellformed_partial.
 (* the content machine is compositional: content that is well-formed on its own is accepted inside any open elements,
    after any text that does not end in ']' (so that no ']]>' can arise across the seam) *)
 Theorem C07_content_in_context : forall f evs, content_parse f = Some evs ->
@@ -152,14 +152,15 @@ Theorem C07_document_root : forall d, skdoc_ok d ->
   exists rest, doc_parse (dfxp_document d) = Some (EOpen tt_name (sort_attrs (k_tt d)) :: rest).
 Proof. exact skeleton_root. Qed.
 Print Assumptions C07_document_root.
+(* audit w7: the namespace names in this statement are the SPECIFICATION's literals (spec/SpecXmlDoc.v spec_ttml_ns /
+   spec_tts_ns, written from the TTML recommendation), not the model's constants; the former second conjunct
+   (root_in_ns of that literal event list) was a computation independent of renderer and parser and is dropped *)
 Theorem C07_document_of_captions_root_in_ttml_namespace : forall legacy ids lang styles regions divs,
   forallb is_xml_char lang = true ->
   Forall (fun a => attrs_ok a []) styles -> Forall (fun a => attrs_ok a []) regions ->
   Forall (fun dv => attrs_ok (fst dv) [] /\ Forall (caption_ok ids) (snd dv)) divs ->
   exists rest, doc_parse (dfxp_document (doc_of_captions legacy ids lang styles regions divs))
-               = Some (EOpen (lit "tt") [(lit "xml:lang", lang); (lit "xmlns", ttml_ns); (lit "xmlns:tts", tts_ns)] :: rest)
-               /\ root_in_ns (lit "tt") ttml_ns
-                    (EOpen (lit "tt") [(lit "xml:lang", lang); (lit "xmlns", ttml_ns); (lit "xmlns:tts", tts_ns)] :: rest) = true.
+               = Some (EOpen (lit "tt") [(lit "xml:lang", lang); (lit "xmlns", spec_ttml_ns); (lit "xmlns:tts", spec_tts_ns)] :: rest).
 Proof. exact document_of_captions_root. Qed.
 Print Assumptions C07_document_of_captions_root_in_ttml_namespace.
 
@@ -172,19 +173,19 @@ Theorem C07_style_elems_ok : forall styles, (forall st, In st styles -> style_en
   Forall (fun a => attrs_ok a []) (style_elems styles).
 Proof. exact style_elems_ok. Qed.
 Print Assumptions C07_style_elems_ok.
-Theorem C07_style_elems_are_the_summary : forall d,
+Theorem C07_style_elems_are_the_summary_unfold : forall d,
   elem_ids (style_elems (ds_styles d)) = s_style_ids (summarize d) /\
   s_style_refs (summarize d) = elem_style_refs (style_elems (ds_styles d)) ++ body_style_refs (s_style_ids (summarize d)) d.
 Proof. exact style_elems_vs_summarize. Qed.
-Print Assumptions C07_style_elems_are_the_summary.
+Print Assumptions C07_style_elems_are_the_summary_unfold.
 (* the whole document with that <styling> section: no hypothesis on the style dictionaries any more, only XML characters *)
-Theorem C07_document_with_styling_wellformed : forall legacy table lang regions divs,
+Theorem C07_document_with_styling_wellformed_partial : forall legacy table lang regions divs,
   (forall st, In st table -> style_entry_ok st) -> forallb is_xml_char lang = true ->
   Forall (fun a => attrs_ok a []) regions ->
   Forall (fun dv => attrs_ok (fst dv) [] /\ Forall (caption_ok (fst (styling table))) (snd dv)) divs ->
   exists evs, doc_parse (dfxp_document (doc_of_captions legacy (fst (styling table)) lang (style_elems table) regions divs)) = Some evs.
 Proof. exact document_with_styling. Qed.
-Print Assumptions C07_document_with_styling_wellformed.
+Print Assumptions C07_document_with_styling_wellformed_partial.
 
 (* ---- round 4: ids and references of the DOCUMENT. model/DfxpSkelBody.v builds the <region> dictionaries of <layout> and
         the <div> / <p> / <span> dictionaries of <body> from the caption set as DFXPWriter.write does (the set is the
@@ -197,12 +198,12 @@ Print Assumptions C07_document_with_styling_wellformed.
         tree, for every caption set of dom_doc (every dset is the erasure of a decorated set: the third statement).
         DFXPWriter and, through single_positioning, SinglePositioningDFXPWriter; the tree of LegacyDFXPWriter is not
         built (its statement stays C07_legacy_doc_consistent_partial). ---------------------------------------------- *)
-Theorem C07_document_tree_is_the_summary : forall extra x, deco_ok extra x ->
+Theorem C07_document_tree_is_the_summary_unfold : forall extra x, deco_ok extra x ->
   let t := tree_of extra x in let s := summarize (erase x) in
   tree_ids t = s_ids s /\ tree_style_ids t = s_style_ids s /\ tree_region_ids t = s_region_ids s /\
   tree_style_refs t = s_style_refs s /\ tree_region_refs t = s_region_refs s.
 Proof. exact tree_is_the_summary. Qed.
-Print Assumptions C07_document_tree_is_the_summary.
+Print Assumptions C07_document_tree_is_the_summary_unfold.
 Theorem C07_document_references_resolved : forall extra x, deco_ok extra x -> dom_doc (erase x) = true ->
   let t := tree_of extra x in
   ok_refs (tree_ids t) (tree_style_ids t) (tree_region_ids t) (tree_style_refs t) (tree_region_refs t) = 0.
@@ -330,7 +331,7 @@ Example C07_example_whole_document :
   is_infix (lit "<p begin=""1"" end=""2"">" ++ [10] ++ lit "   </p>") (dfxp_document C07_example_skdoc) = true /\
   is_infix (lit "<div xml:lang=""f'&quot;&lt;""/>") (dfxp_document C07_example_skdoc) = true /\
   match doc_parse (dfxp_document C07_example_skdoc) with
-  | Some evs => ns_ok evs && root_in_ns (lit "tt") ttml_ns evs
+  | Some evs => ns_ok evs && root_in_ns (lit "tt") spec_ttml_ns evs
   | None => false end = true.
 Proof.
   split; [|vm_compute; repeat split].
@@ -405,4 +406,29 @@ Proof.
   split.
   - intros id. destruct (id =? 0); [|exact N0]. repeat split; cbn [map fst In]; intros H; repeat (destruct H as [H|H]; [discriminate|]); exact H.
   - repeat constructor; cbn; try exact N0; try exact N1; try apply N0; try apply N1.
+Qed.
+(* audit w7: ALL hypotheses of C07_document_with_styling_wellformed_partial instantiated together - a non-empty style table,
+   one region dictionary, one div with one caption (text, break, text) - and the document they give is accepted, with bound
+   namespace prefixes and its root in the TTML namespace *)
+Example C07_example_document_with_styling :
+  let table := [(lit "k1", [(lit "color", lit "white")])] in
+  let regions := [[(lit "xml:id", lit "bottom"); (lit "tts:displayAlign", lit "after")]] in
+  let cap := ([(lit "begin", lit "00:00:01.000"); (lit "end", lit "00:00:02.000"); (lit "region", lit "bottom"); (lit "style", lit "k1")],
+              [CText (lit "a & b"); CBreak; CText (lit "c<d")]) in
+  let divs := [([(lit "xml:lang", lit "en")], [cap])] in
+  (forall st, In st table -> style_entry_ok st) /\ forallb is_xml_char (lit "en") = true /\
+  Forall (fun a => attrs_ok a []) regions /\
+  Forall (fun dv => attrs_ok (fst dv) [] /\ Forall (caption_ok (fst (styling table))) (snd dv)) divs /\
+  match doc_parse (dfxp_document (doc_of_captions false (fst (styling table)) (lit "en") (style_elems table) regions divs)) with
+  | Some evs => ns_ok evs && root_in_ns (lit "tt") spec_ttml_ns evs
+  | None => false end = true.
+Proof.
+  split; [|split; [reflexivity|split; [|split; [|vm_compute; reflexivity]]]].
+  - intros st [<-|[]]; split; try reflexivity; cbn [snd map]; intros v Hv; cbn [In] in Hv;
+      repeat match goal with H : _ \/ _ |- _ => destruct H end; subst; try reflexivity; contradiction.
+  - constructor; [cbn [attrs_ok]; repeat split; reflexivity|constructor].
+  - constructor; [|constructor]. split; [cbn [attrs_ok fst]; repeat split; reflexivity|]. cbn [snd].
+    constructor; [|constructor]. unfold caption_ok. cbn [fst snd]. split; [cbn [attrs_ok]; repeat split; reflexivity|]. split.
+    + constructor; [reflexivity|]. constructor; [exact I|]. constructor; [reflexivity|constructor].
+    + cbn [map to_pnode]. apply bal_text. apply bal_break. apply bal_text. constructor.
 Qed.
